@@ -279,17 +279,17 @@ def wcs_from_points(xy, world_coords, proj_point='center',
 
     if isinstance(proj_point, coord.SkyCoord):
         assert proj_point.size == 1
-        proj_point.transform_to(world_coords)
+        proj_point = proj_point.transform_to(world_coords)
         crval = (proj_point.data.lon, proj_point.data.lat)
         frame = proj_point.frame
     elif proj_point == 'center':  # use center of input points
-        sc1 = coord.SkyCoord(lon.min()*u.deg, lat.max()*u.deg)
-        sc2 = coord.SkyCoord(lon.max()*u.deg, lat.min()*u.deg)
+        frame = world_coords.frame.replicate_without_data()
+        sc1 = coord.SkyCoord(lon.min()*u.deg, lat.max()*u.deg, frame=frame)
+        sc2 = coord.SkyCoord(lon.max()*u.deg, lat.min()*u.deg, frame=frame)
         pa = sc1.position_angle(sc2)
         sep = sc1.separation(sc2)
         midpoint_sc = sc1.directional_offset_by(pa, sep/2)
         crval = (midpoint_sc.data.lon, midpoint_sc.data.lat)
-        frame = sc1.frame
     else:
         raise ValueError("`proj_point` must be set to 'center', or an" +
                          "`~astropy.coordinates.SkyCoord` object with " +
